@@ -14,7 +14,6 @@ open GoSquare Builder Spec
 section StableSort
 open List
 
-
 /-- in the stable sort of a duplicate-free list, a pair that compares equivalent keeps its input order -/
 theorem pair_of_sorted_tie {α : Type} {le : α → α → Bool}
     (trans : ∀ (a b c : α), le a b → le b c → le a c) (total : ∀ (a b : α), le a b || le b a)
@@ -34,7 +33,6 @@ theorem mergeSort_append_congr {α : Type} {le : α → α → Bool}
   have hperm : (A ++ C).Perm (A' ++ C) := hAA'.append_right C
   have hn' : (A' ++ C).Nodup := hperm.nodup hn
   have hnA : A.Nodup := (List.nodup_append.mp hn).1
-  have hnA' : A'.Nodup := (List.nodup_append.mp hn').1
   -- the common strict order: by `le`, ties by position in `A ++ C`
   let R : α → α → Prop := fun a b => le a b = true ∧ (le b a = true → [a, b] <+ A ++ C)
   have hs1 : ((A ++ C).mergeSort le).Pairwise R := by
@@ -69,8 +67,7 @@ theorem mergeSort_append_congr {α : Type} {le : α → α → Bool}
       simp at this
   refine List.Perm.eq_of_pairwise (le := R) ?_ hs1 hs2
     (((List.mergeSort_perm _ le).trans hperm).trans (List.mergeSort_perm _ le).symm)
-  intro a b ha _ hab hba
-  have hsn : ((A ++ C).mergeSort le).Nodup := ((List.mergeSort_perm _ le).nodup_iff).mpr hn
+  intro a b _ _ hab hba
   exact (pair_sublist_asymm hn (hab.2 hba.1) (hba.2 hab.1)).elim
 
 end StableSort
@@ -679,5 +676,155 @@ theorem run_invariant (err : Builder → Op → Builder) (herr : ∀ b op, ErrSt
       rw [hacc, run_cons]
       exact run_invariant err herr ops (step err b op) r N B
         ((step_equiv_of_not_accepted err herr b op ha').trans h) hk
+
+/-! ### the accepted appends as a history of their own -/
+
+theorem acceptedOps_sublist (err : Builder → Op → Builder) : ∀ (ops : List Op) (b : Builder),
+    (acceptedOps err b ops).Sublist ops
+  | [], _ => List.Sublist.slnil
+  | op :: ops, b => by
+    simp only [acceptedOps]
+    split
+    · exact List.Sublist.cons_cons op (acceptedOps_sublist err ops _)
+    · exact List.Sublist.cons op (acceptedOps_sublist err ops _)
+
+theorem acceptedOps_isAppend (err : Builder → Op → Builder) : ∀ (ops : List Op) (b : Builder),
+    ∀ op ∈ acceptedOps err b ops, isAppend op = true
+  | [], _, op, h => by simp [acceptedOps] at h
+  | o :: ops, b, op, h => by
+    simp only [acceptedOps] at h
+    split at h
+    · rename_i ha
+      rcases List.mem_cons.mp h with rfl | h'
+      · cases op <;> simp [accepts] at ha <;> rfl
+      · exact acceptedOps_isAppend err ops _ op h'
+    · exact acceptedOps_isAppend err ops _ op h
+
+/-- a history of appends only never consults the error behaviour -/
+theorem run_appends_indep (err err' : Builder → Op → Builder) : ∀ (l : List Op) (b : Builder),
+    (∀ op ∈ l, isAppend op = true) → run err b l = run err' b l
+  | [], _, _ => rfl
+  | op :: l, b, h => by
+    have h1 : step err b op = step err' b op := by
+      have := h op (by simp)
+      cases op <;> simp [isAppend] at this <;> rfl
+    rw [run_cons, run_cons, h1]
+    exact run_appends_indep err err' l _ (fun o ho => h o (by simp [ho]))
+
+/-! ### C14 (builder half) -/
+
+/-- **The finally exported square depends only on the accepted appends** — from any append-only
+    start state `b0` (one that has kept `N` and `B`), for every history `ops` of appends, exports
+    and queries, and for every behaviour `err` on errors allowed by `ErrState`: the final `Export`
+    returns the same square (or the same error) as after the accepted appends alone. -/
+theorem export_depends_only_on_accepted_of_kept (err : Builder → Op → Builder)
+    (herr : ∀ b op, ErrState b (err b op)) (b0 : Builder) (N : List Bytes) (B : List BlobTx) (hk : Kept b0 N B)
+    (ops : List Op) :
+    (run err b0 ops).exportSquare.map (·.2) = (run err b0 (acceptedOps err b0 ops)).exportSquare.map (·.2) := by
+  obtain ⟨h1, h2, _⟩ := run_invariant err herr ops b0 b0 N B (Equiv.refl b0) hk
+  exact exportSquare_equiv _ _ _ _ h1 h2
+
+/-- **C14 (builder half).** For a fresh builder and every history `ops` — appends (accepted or
+    refused), `Export`s, `FindTxShareRange`, `FindBlobStartingIndex`, `BlobShareLength` and
+    `GetWrappedPFB` queries, interleaved in any way — the final `Export` returns exactly what a
+    fresh builder returns that was fed only the accepted appends, in order. -/
+theorem export_depends_only_on_accepted (err : Builder → Op → Builder)
+    (herr : ∀ b op, ErrState b (err b op)) (max thr : Nat) (b0 : Builder) (h0 : Builder.new max thr = .ok b0)
+    (ops : List Op) :
+    (run err b0 ops).exportSquare.map (·.2) = (run err b0 (acceptedOps err b0 ops)).exportSquare.map (·.2) :=
+  export_depends_only_on_accepted_of_kept err herr b0 [] [] (kept_new max thr b0 h0).1 ops
+
+/-- what the reference history is: a sub-history of `ops` made of appends only, every one of which
+    the fresh builder accepts again on replay; it ends in the append-only state that has kept
+    exactly the accepted ordinary and blob transactions (`Kept`, hence the closed-form estimate,
+    counters, placeholder wrappers and unsorted elements of Proofs/Builder.lean). -/
+theorem accepted_history (err : Builder → Op → Builder) (herr : ∀ b op, ErrState b (err b op))
+    (max thr : Nat) (b0 : Builder) (h0 : Builder.new max thr = .ok b0) (ops : List Op) :
+    (acceptedOps err b0 ops).Sublist ops ∧
+    (∀ op ∈ acceptedOps err b0 ops, isAppend op = true) ∧
+    acceptedOps err b0 (acceptedOps err b0 ops) = acceptedOps err b0 ops ∧
+    Kept (run err b0 (acceptedOps err b0 ops)) (keptTxs (acceptedOps err b0 ops))
+      (keptBlobTxs (acceptedOps err b0 ops)) := by
+  obtain ⟨_, h2, h3⟩ := run_invariant err herr ops b0 b0 [] [] (Equiv.refl b0) (kept_new max thr b0 h0).1
+  exact ⟨acceptedOps_sublist err ops b0, acceptedOps_isAppend err ops b0, h3, by simpa using h2⟩
+
+/-- two histories (possibly with different error behaviours) with the same accepted appends export
+    the same square -/
+theorem same_accepted_same_export (err1 err2 : Builder → Op → Builder)
+    (herr1 : ∀ b op, ErrState b (err1 b op)) (herr2 : ∀ b op, ErrState b (err2 b op))
+    (max thr : Nat) (b0 : Builder) (h0 : Builder.new max thr = .ok b0) (ops1 ops2 : List Op)
+    (h : acceptedOps err1 b0 ops1 = acceptedOps err2 b0 ops2) :
+    (run err1 b0 ops1).exportSquare.map (·.2) = (run err2 b0 ops2).exportSquare.map (·.2) := by
+  rw [export_depends_only_on_accepted err1 herr1 max thr b0 h0 ops1,
+    export_depends_only_on_accepted err2 herr2 max thr b0 h0 ops2, h,
+    run_appends_indep err1 err2 _ b0 (acceptedOps_isAppend err2 ops2 b0)]
+
+/-! ### the two deterministic resolutions of the error case -/
+
+/-- an error leaves the builder untouched -/
+def errUnchanged : Builder → Op → Builder := fun b _ => b
+
+/-- an error leaves the builder exported whenever `Export` succeeds on it -/
+def errExported : Builder → Op → Builder := fun b _ =>
+  match b.exportSquare with
+  | .ok (b', _) => b'
+  | .error _ => b
+
+theorem errUnchanged_ok (b : Builder) (op : Op) : ErrState b (errUnchanged b op) := Or.inl rfl
+
+theorem errExported_ok (b : Builder) (op : Op) : ErrState b (errExported b op) := by
+  unfold errExported
+  cases h : b.exportSquare with
+  | error e => exact Or.inl rfl
+  | ok x => exact Or.inr (Or.inl ⟨x.2, h⟩)
+
+theorem export_depends_only_on_accepted_unchanged (max thr : Nat) (b0 : Builder)
+    (h0 : Builder.new max thr = .ok b0) (ops : List Op) :
+    (run errUnchanged b0 ops).exportSquare.map (·.2) =
+      (run errUnchanged b0 (acceptedOps errUnchanged b0 ops)).exportSquare.map (·.2) :=
+  export_depends_only_on_accepted errUnchanged errUnchanged_ok max thr b0 h0 ops
+
+theorem export_depends_only_on_accepted_exported (max thr : Nat) (b0 : Builder)
+    (h0 : Builder.new max thr = .ok b0) (ops : List Op) :
+    (run errExported b0 ops).exportSquare.map (·.2) =
+      (run errExported b0 (acceptedOps errExported b0 ops)).exportSquare.map (·.2) :=
+  export_depends_only_on_accepted errExported errExported_ok max thr b0 h0 ops
+
+/-- `Export` is idempotent on reachable states: a second `Export` returns the same square -/
+theorem export_twice (err : Builder → Op → Builder) (herr : ∀ b op, ErrState b (err b op))
+    (max thr : Nat) (b0 : Builder) (h0 : Builder.new max thr = .ok b0) (ops : List Op)
+    (b' : Builder) (sq : List Bytes) (h : (run err b0 ops).exportSquare = .ok (b', sq)) :
+    b'.exportSquare.map (·.2) = .ok sq := by
+  obtain ⟨h1, h2, _⟩ := run_invariant err herr ops b0 b0 [] [] (Equiv.refl b0) (kept_new max thr b0 h0).1
+  have he : Equiv b' (run err b0 (acceptedOps err b0 ops)) := (exported_equiv _ b' sq h).trans h1
+  rw [exportSquare_equiv _ _ _ _ he h2, ← exportSquare_equiv _ _ _ _ h1 h2, h]
+  rfl
+
+/-! ### a concrete history (non-vacuity) -/
+
+def exBlob (x : UInt8) : Blob := { ns := List.replicate 28 0 ++ [x], data := [1, 2, 3], ver := 0, signer := none }
+
+/-- appends before and after an `Export`, succeeding and failing queries (`blobIdx 2 0` exports
+    again and finds the blob moved from share 2 to share 3; `wrappedPFB 7` is out of range), a
+    refused blob transaction -/
+def exOps : List Op :=
+  [.tx [1, 2, 3], .blobTx { tx := [9], blobs := [exBlob 7] }, .export, .txRange 0,
+   .tx (List.replicate 600 0), .blobIdx 2 0, .wrappedPFB 7,
+   .blobTx { tx := [8], blobs := List.replicate 15 (exBlob 4) },
+   .tx [4], .export, .blobLen 3 0]
+
+def exB0 : Builder := { maxSquareSize := 4, thr := 64 }
+
+example : Builder.new 4 64 = .ok exB0 := by rfl
+
+example :
+    acceptedOps errUnchanged exB0 exOps =
+      [.tx [1, 2, 3], .blobTx { tx := [9], blobs := [exBlob 7] }, .tx (List.replicate 600 0), .tx [4]] ∧
+    (run errUnchanged exB0 (exOps.take 3)).pfbs.map (·.shareIndexes) = [[2]] ∧
+    (run errUnchanged exB0 (exOps.take 6)).pfbs.map (·.shareIndexes) = [[3]] ∧
+    (match (run errUnchanged exB0 exOps).exportSquare with
+      | .ok (b, sq) => sq.length == 4 && b.pfbs.map (·.shareIndexes) == [[3]]
+      | .error _ => false) = true := by
+  decide +kernel
 
 end GoSquare.BuilderHistory
